@@ -284,6 +284,7 @@ static void h_exec(const plan_t *p)
 
     simheap_reset(&hc, p->cfg[CF_JUNK]);
     simheap_far((int)p->cfg[CF_FAR]);
+    simheap_far_nodeoff(hoff((int)(p->cfg[CF_CLEARFREES] >> 4 & 1)));      /* (mode 3: the node member of heap 0's kind) */
     nh = (int)p->cfg[CF_NH]; if (nh < 1) nh = 1; if (nh > 2) nh = 2;
     prios = (int)p->cfg[CF_PRIOS]; if (prios < 1) prios = 1;
     maxn = (int)p->cfg[CF_MAXN]; if (maxn < 1) maxn = 4; if (maxn > MAXN - 8) maxn = MAXN - 8;
